@@ -1,15 +1,18 @@
-// C09 — smart-dial ranking.
-//  (1) is_global_ipv4 / is_global_ipv6 against the same independent IANA table as
-//      C22 (complete over u32 / u128);
-//  (2) is_global_addr: contract from the statement — private/loopback/link-local
-//      IPs, Ip6zone and localhost names are NOT global; public IPs and non-local
-//      DNS names ARE;
-//  (3) rank_dials on concrete address multisets (real Multiaddr): output is a
-//      permutation of the input, group order private <= public <= relay <= no-IP,
-//      QUIC no later than TCP inside a group.
-use futures::FutureExt;
+// C09 — smart-dial ranking, part 1: the IP predicates and is_global_addr on the
+// REAL Multiaddr.  (Part 2, model.rs: the verbatim text of rank_dials /
+// group_delays / score / is_global_addr on a sequence model of Multiaddr.)
+//
+// Contract for the IP predicates, from the statement ("private IPs and localhost
+// names first, then public IPs"):
+//   * RFC 1918 private, loopback and link-local IPv4, and ::1, fe80::/10, fc00::/7
+//     MUST be classified not-global (they are the statement's "private IPs");
+//   * an address outside every special-purpose block of the IANA registries (and
+//     outside multicast) MUST be classified global ("public IPs");
+//   * every other special-purpose block (documentation, benchmarking, CGNAT,
+//     reserved, protocol assignments, 6to4, ...) is accepted either way: the
+//     statement does not place it.
 
-// ---- (1) IP predicates: the C22 registry table ---------------------------------
+// ---- specification tables --------------------------------------------------------
 const fn in4(a: u32, net: u32, len: u32) -> bool {
     let mask: u32 = if len == 0 { 0 } else { u32::MAX << (32 - len) };
     a & mask == net & mask
@@ -17,16 +20,18 @@ const fn in4(a: u32, net: u32, len: u32) -> bool {
 const fn v4(a: u8, b: u8, c: u8, d: u8) -> u32 {
     u32::from_be_bytes([a, b, c, d])
 }
-fn spec4_either(a: u32) -> bool {
-    a == v4(192, 0, 0, 9) || a == v4(192, 0, 0, 10) || in4(a, v4(192, 88, 99, 0), 24)
-        || in4(a, v4(192, 31, 196, 0), 24) || in4(a, v4(192, 52, 193, 0), 24) || in4(a, v4(192, 175, 48, 0), 24)
+/// the statement's "private IPs" (IPv4): RFC 1918, loopback, link-local
+pub(crate) fn private4(a: u32) -> bool {
+    in4(a, v4(10, 0, 0, 0), 8) || in4(a, v4(172, 16, 0, 0), 12) || in4(a, v4(192, 168, 0, 0), 16)
+        || in4(a, v4(127, 0, 0, 0), 8) || in4(a, v4(169, 254, 0, 0), 16)
 }
-fn spec4_not_global(a: u32) -> bool {
-    in4(a, v4(0, 0, 0, 0), 8) || in4(a, v4(10, 0, 0, 0), 8) || in4(a, v4(100, 64, 0, 0), 10)
-        || in4(a, v4(127, 0, 0, 0), 8) || in4(a, v4(169, 254, 0, 0), 16) || in4(a, v4(172, 16, 0, 0), 12)
-        || (in4(a, v4(192, 0, 0, 0), 24) && !spec4_either(a)) || in4(a, v4(192, 0, 2, 0), 24)
-        || in4(a, v4(192, 168, 0, 0), 16) || in4(a, v4(198, 18, 0, 0), 15) || in4(a, v4(198, 51, 100, 0), 24)
-        || in4(a, v4(203, 0, 113, 0), 24) || in4(a, v4(240, 0, 0, 0), 4)
+/// any block of the IANA IPv4 special-purpose registry, or multicast
+pub(crate) fn special4(a: u32) -> bool {
+    private4(a) || in4(a, v4(0, 0, 0, 0), 8) || in4(a, v4(100, 64, 0, 0), 10) || in4(a, v4(192, 0, 0, 0), 24)
+        || in4(a, v4(192, 0, 2, 0), 24) || in4(a, v4(192, 31, 196, 0), 24) || in4(a, v4(192, 52, 193, 0), 24)
+        || in4(a, v4(192, 88, 99, 0), 24) || in4(a, v4(192, 175, 48, 0), 24) || in4(a, v4(198, 18, 0, 0), 15)
+        || in4(a, v4(198, 51, 100, 0), 24) || in4(a, v4(203, 0, 113, 0), 24) || in4(a, v4(240, 0, 0, 0), 4)
+        || in4(a, v4(224, 0, 0, 0), 4)
 }
 const fn in6(a: u128, net: u128, len: u32) -> bool {
     let mask: u128 = if len == 0 { 0 } else { u128::MAX << (128 - len) };
@@ -36,184 +41,46 @@ const fn s6(s: [u16; 8]) -> u128 {
     ((s[0] as u128) << 112) | ((s[1] as u128) << 96) | ((s[2] as u128) << 80) | ((s[3] as u128) << 64)
         | ((s[4] as u128) << 48) | ((s[5] as u128) << 32) | ((s[6] as u128) << 16) | (s[7] as u128)
 }
-fn spec6_either(a: u128) -> bool {
-    a == s6([0x2001, 1, 0, 0, 0, 0, 0, 1]) || a == s6([0x2001, 1, 0, 0, 0, 0, 0, 2])
-        || in6(a, s6([0x2001, 3, 0, 0, 0, 0, 0, 0]), 32) || in6(a, s6([0x2001, 4, 0x112, 0, 0, 0, 0, 0]), 48)
-        || in6(a, s6([0x2001, 0x20, 0, 0, 0, 0, 0, 0]), 28) || in6(a, s6([0x2001, 0x30, 0, 0, 0, 0, 0, 0]), 28)
-        || in6(a, s6([0x2002, 0, 0, 0, 0, 0, 0, 0]), 16) || in6(a, s6([0x64, 0xff9b, 0, 0, 0, 0, 0, 0]), 96)
-        || in6(a, s6([0x2620, 0x4f, 0x8000, 0, 0, 0, 0, 0]), 48) || in6(a, s6([0x100, 0, 0, 1, 0, 0, 0, 0]), 64)
-        // documentation / SRv6 blocks newer than the std implementation this module mirrors:
-        // accepted either way here (C22 decides them for the global-only transport)
-        || in6(a, s6([0x3fff, 0, 0, 0, 0, 0, 0, 0]), 20) || in6(a, s6([0x5f00, 0, 0, 0, 0, 0, 0, 0]), 16)
+/// the statement's "private IPs" (IPv6): loopback, link-local unicast, unique local
+pub(crate) fn private6(a: u128) -> bool {
+    a == 1 || in6(a, s6([0xfe80, 0, 0, 0, 0, 0, 0, 0]), 10) || in6(a, s6([0xfc00, 0, 0, 0, 0, 0, 0, 0]), 7)
 }
-fn spec6_not_global(a: u128) -> bool {
-    (a == 0 || a == 1 || in6(a, s6([0, 0, 0, 0, 0, 0xffff, 0, 0]), 96)
-        || in6(a, s6([0x64, 0xff9b, 1, 0, 0, 0, 0, 0]), 48) || in6(a, s6([0x100, 0, 0, 0, 0, 0, 0, 0]), 64)
+/// any block of the IANA IPv6 special-purpose registry, or multicast
+pub(crate) fn special6(a: u128) -> bool {
+    private6(a) || a == 0 || in6(a, s6([0, 0, 0, 0, 0, 0xffff, 0, 0]), 96)
+        || in6(a, s6([0x64, 0xff9b, 0, 0, 0, 0, 0, 0]), 96) || in6(a, s6([0x64, 0xff9b, 1, 0, 0, 0, 0, 0]), 48)
+        || in6(a, s6([0x100, 0, 0, 0, 0, 0, 0, 0]), 64) || in6(a, s6([0x100, 0, 0, 1, 0, 0, 0, 0]), 64)
         || in6(a, s6([0x2001, 0, 0, 0, 0, 0, 0, 0]), 23) || in6(a, s6([0x2001, 0xdb8, 0, 0, 0, 0, 0, 0]), 32)
-        || in6(a, s6([0xfc00, 0, 0, 0, 0, 0, 0, 0]), 7) || in6(a, s6([0xfe80, 0, 0, 0, 0, 0, 0, 0]), 10))
-        && !spec6_either(a)
+        || in6(a, s6([0x2002, 0, 0, 0, 0, 0, 0, 0]), 16) || in6(a, s6([0x2620, 0x4f, 0x8000, 0, 0, 0, 0, 0]), 48)
+        || in6(a, s6([0x3fff, 0, 0, 0, 0, 0, 0, 0]), 20) || in6(a, s6([0x5f00, 0, 0, 0, 0, 0, 0, 0]), 16)
+        || in6(a, s6([0xff00, 0, 0, 0, 0, 0, 0, 0]), 8)
 }
 
+// ---- (1) IP predicates, complete over u32 / u128 -----------------------------------
 #[kani::proof]
-fn ranker_ipv4_global_matches_registry() {
+fn ranker_ipv4_private_and_public() {
     let raw: u32 = kani::any();
     let g = is_global_ipv4(&Ipv4Addr::from(raw));
-    if spec4_not_global(raw) {
+    kani::cover!(private4(raw));
+    kani::cover!(!special4(raw));
+    if private4(raw) {
         assert!(!g);
-    } else if !spec4_either(raw) {
+    } else if !special4(raw) {
         assert!(g);
     }
 }
 
 #[kani::proof]
-fn ranker_ipv6_global_matches_registry() {
+fn ranker_ipv6_private_and_public() {
     let raw: u128 = kani::any();
     let g = is_global_ipv6(&Ipv6Addr::from(raw));
-    if spec6_not_global(raw) {
+    kani::cover!(private6(raw));
+    kani::cover!(!special6(raw));
+    if private6(raw) {
         assert!(!g);
-    } else if !spec6_either(raw) {
+    } else if !special6(raw) {
         assert!(g);
     }
-}
-
-// ---- (2) is_global_addr ---------------------------------------------------------
-fn addr(parts: &[Protocol<'static>]) -> Multiaddr {
-    let mut a = Multiaddr::empty();
-    for p in parts {
-        a = a.with(p.clone());
-    }
-    a
-}
-
-/// IP-bearing addresses: global exactly when the (first) IP is.
-#[kani::proof]
-#[kani::unwind(24)]
-fn global_addr_follows_ip4() {
-    let raw: u32 = kani::any();
-    let a = addr(&[Protocol::Ip4(Ipv4Addr::from(raw)), Protocol::Tcp(kani::any())]);
-    let g = is_global_addr(&a);
-    if spec4_not_global(raw) {
-        assert!(!g);
-    } else if !spec4_either(raw) {
-        assert!(g);
-    }
-}
-
-#[kani::proof]
-#[kani::unwind(24)]
-fn global_addr_follows_ip6() {
-    let raw: u128 = kani::any();
-    let a = addr(&[Protocol::Ip6(Ipv6Addr::from(raw)), Protocol::Udp(kani::any()), Protocol::QuicV1]);
-    let g = is_global_addr(&a);
-    if spec6_not_global(raw) {
-        assert!(!g);
-    } else if !spec6_either(raw) {
-        assert!(g);
-    }
-}
-
-/// DNS names: localhost and *.localhost are local; any other name is globally routable.
-#[kani::proof]
-#[kani::unwind(40)]
-fn global_addr_dns_names() {
-    assert!(!is_global_addr(&addr(&[Protocol::Dns("localhost".into()), Protocol::Tcp(1)])));
-    assert!(!is_global_addr(&addr(&[Protocol::Dns4("a.localhost".into()), Protocol::Tcp(1)])));
-    assert!(is_global_addr(&addr(&[Protocol::Dns("example.com".into()), Protocol::Tcp(443)])));
-    assert!(is_global_addr(&addr(&[Protocol::Dns6("ipfs.io".into()), Protocol::Tcp(443)])));
-}
-
-// ---- (3) rank_dials ---------------------------------------------------------------
-fn dial(a: Multiaddr) -> PendingDial {
-    PendingDial { addr: a, fut: futures::future::pending().boxed() }
-}
-
-/// group index from the statement: 0 private/localhost, 1 public IP, 2 relay, 3 no IP component
-fn group_of(a: &Multiaddr) -> u8 {
-    let has_ip = a.iter().any(|p| matches!(p, Protocol::Ip4(_) | Protocol::Ip6(_)));
-    if a.iter().any(|p| matches!(p, Protocol::P2pCircuit)) {
-        2
-    } else if has_ip {
-        let global = a.iter().find_map(|p| match p {
-            Protocol::Ip4(i) => Some(!spec4_not_global(u32::from(i))),
-            Protocol::Ip6(i) => Some(!spec6_not_global(u128::from(i))),
-            _ => None,
-        });
-        if global == Some(true) { 1 } else { 0 }
-    } else {
-        let local_name = a.iter().any(|p| match p {
-            Protocol::Dns(d) | Protocol::Dns4(d) | Protocol::Dns6(d) => d == "localhost" || d.ends_with(".localhost"),
-            _ => false,
-        });
-        if local_name { 0 } else { 3 }
-    }
-}
-
-fn is_quic(a: &Multiaddr) -> bool {
-    a.iter().any(|p| matches!(p, Protocol::Quic | Protocol::QuicV1))
-}
-fn is_tcp(a: &Multiaddr) -> bool {
-    a.iter().any(|p| matches!(p, Protocol::Tcp(_)))
-}
-
-fn check_ranking(input: Vec<Multiaddr>) {
-    let n = input.len();
-    let out = rank_dials(input.iter().cloned().map(dial).collect());
-    // permutation: same length and every input address occurs as often as in the input
-    assert!(out.len() == n);
-    for a in input.iter() {
-        let cin = input.iter().filter(|x| *x == a).count();
-        let cout = out.iter().filter(|(_, d)| &d.addr == a).count();
-        assert!(cin == cout);
-    }
-    // group order and QUIC-before-TCP inside a group, by position and by delay
-    for i in 0..out.len() {
-        for j in (i + 1)..out.len() {
-            let (gi, gj) = (group_of(&out[i].1.addr), group_of(&out[j].1.addr));
-            assert!(gi <= gj);
-            if gi < gj {
-                assert!(out[i].0 <= out[j].0);
-            }
-            if gi == gj && is_tcp(&out[i].1.addr) && !is_quic(&out[i].1.addr) && is_quic(&out[j].1.addr) {
-                // a TCP address placed before a QUIC address of the same group must not start earlier
-                assert!(out[j].0 <= out[i].0);
-            }
-        }
-    }
-    std::mem::forget(out);
-}
-
-fn ip4(a: u8, b: u8, c: u8, d: u8) -> Protocol<'static> {
-    Protocol::Ip4(Ipv4Addr::new(a, b, c, d))
-}
-
-#[kani::proof]
-#[kani::unwind(40)]
-fn rank_private_public_relay() {
-    check_ranking(vec![
-        addr(&[ip4(8, 8, 8, 8), Protocol::Tcp(4001)]),
-        addr(&[ip4(9, 9, 9, 9), Protocol::Tcp(1), Protocol::P2pCircuit]),
-        addr(&[ip4(192, 168, 1, 5), Protocol::Udp(4001), Protocol::QuicV1]),
-    ]);
-}
-
-#[kani::proof]
-#[kani::unwind(40)]
-fn rank_dns_names_last_localhost_first() {
-    check_ranking(vec![
-        addr(&[Protocol::Dns("example.com".into()), Protocol::Tcp(443)]),
-        addr(&[ip4(8, 8, 4, 4), Protocol::Udp(4001), Protocol::QuicV1]),
-        addr(&[Protocol::Dns("localhost".into()), Protocol::Tcp(4001)]),
-    ]);
-}
-
-#[kani::proof]
-#[kani::unwind(40)]
-fn rank_quic_before_tcp_public() {
-    check_ranking(vec![
-        addr(&[ip4(8, 8, 8, 8), Protocol::Tcp(4001)]),
-        addr(&[ip4(8, 8, 8, 8), Protocol::Udp(4001), Protocol::QuicV1]),
-        addr(&[Protocol::Ip6(Ipv6Addr::new(0x2606, 0x4700, 0, 0, 0, 0, 0, 0x1111)), Protocol::Tcp(4001)]),
-    ]);
 }
 
 /// Vacuity canary: must FAIL.
@@ -221,4 +88,33 @@ fn rank_quic_before_tcp_public() {
 fn canary_every_ip4_private() {
     let raw: u32 = kani::any();
     assert!(!is_global_ipv4(&Ipv4Addr::from(raw)));
+}
+
+// ---- (2) is_global_addr on the real Multiaddr: follows the IP component --------------
+#[kani::proof]
+#[kani::unwind(24)]
+fn real_global_addr_follows_ip4() {
+    let raw: u32 = kani::any();
+    let a = Multiaddr::from(Protocol::Ip4(Ipv4Addr::from(raw))).with(Protocol::Tcp(kani::any()));
+    let g = is_global_addr(&a);
+    if private4(raw) {
+        assert!(!g);
+    } else if !special4(raw) {
+        assert!(g);
+    }
+    std::mem::forget(a);
+}
+
+#[kani::proof]
+#[kani::unwind(24)]
+fn real_global_addr_follows_ip6() {
+    let raw: u128 = kani::any();
+    let a = Multiaddr::from(Protocol::Ip6(Ipv6Addr::from(raw))).with(Protocol::Udp(kani::any())).with(Protocol::QuicV1);
+    let g = is_global_addr(&a);
+    if private6(raw) {
+        assert!(!g);
+    } else if !special6(raw) {
+        assert!(g);
+    }
+    std::mem::forget(a);
 }
